@@ -248,14 +248,14 @@ def hasRescaledF64 (ms : List Message) : Bool := ms.any fun m =>
 
 def kfGate (args : List String) : String :=
   match parseGate args with
-  | some (ver, _, ms) => if ver == Fit.Gen.protoV1 && hasNilBase ms then "KF-C10-1" else "-"
+  | some _ => "-"      -- KF-C10-1 (nil FieldBase under protocol 1.0) is fixed: no class left for gate ops
   | none => "-"
 
 def kfPValidate (args : List String) : String :=
   match args with
   | [v, m] =>
     match kvByte [v] "v", parseMessage m with
-    | some ver, some m => if ver == Fit.Gen.protoV1 && hasNilBase [m] then "KF-C10-1" else "-"
+    | some _, some _ => "-"   -- KF-C10-1 fixed
     | _, _ => "-"
   | _ => "-"
 
